@@ -195,6 +195,17 @@ func verifyFunc(w *World, key string) *FuncResult {
 			}
 		}
 	}
+	// vacuity: an at-call clause whose callee name matches no call site in the body proves nothing
+	if len(res.Errs) == 0 && len(g.errs) == 0 {
+		for name, cls := range fc.AtCall {
+			for i, cl := range cls {
+				ck := name + "." + clauseName(cl, i)
+				if g.atSeen[ck] == 0 && g.atSkipped[ck] == 0 {
+					g.errorf("at-call clause %s: no call to %s in the body of %s (renamed or removed callee?)", ck, name, shortKey(key))
+				}
+			}
+		}
+	}
 	for _, ck := range sortedKeys(g.atSkipped) {
 		if g.atSeen[ck] == 0 {
 			g.errorf("at-call clause %s could not be evaluated at any of its call sites (unknown identifier?)", ck)
